@@ -1,6 +1,7 @@
 package main
 
 import (
+	"encoding/json"
 	"flag"
 	"fmt"
 	"os"
@@ -24,6 +25,8 @@ func main() {
 		cmdModset(os.Args[2:])
 	case "check":
 		os.Exit(cmdCheck(os.Args[2:]))
+	case "replay":
+		os.Exit(cmdReplay(os.Args[2:]))
 	default:
 		fmt.Fprintln(os.Stderr, "unknown command", os.Args[1])
 		os.Exit(2)
@@ -255,4 +258,61 @@ func cmdAllSources(args []string) {
 			}
 		}
 	}
+}
+
+// govc replay [-repo dir] <file>: re-runs the executable witness stored in a replay file against the real code.
+// exit 1: the witness fails as recorded (panic at the obligation's instruction / failing assertion), or the file records
+// a failed obligation without an input (no-failing-input-found: the obligation and the solver output are printed);
+// exit 0: a stored witness no longer fails.
+func cmdReplay(args []string) int {
+	fs := flag.NewFlagSet("replay", flag.ExitOnError)
+	repo := fs.String("repo", "/repo", "repository")
+	fs.Parse(args)
+	if fs.NArg() != 1 {
+		fmt.Fprintln(os.Stderr, "usage: govc replay [-repo dir] <replay.json>")
+		return 2
+	}
+	b, err := os.ReadFile(fs.Arg(0))
+	if err != nil {
+		fmt.Fprintln(os.Stderr, err)
+		return 2
+	}
+	var rec map[string]any
+	if err := json.Unmarshal(b, &rec); err != nil {
+		fmt.Fprintln(os.Stderr, err)
+		return 2
+	}
+	str := func(k string) string { s, _ := rec[k].(string); return s }
+	fmt.Printf("property   %s\nobligation %s\nat         %s\nsolver     %s [%s]\n", str("property"), str("obligation"), str("pos"), str("solver"), str("solver_answer"))
+	if d := str("desc"); d != "" {
+		fmt.Printf("meaning    %s\n", d)
+	}
+	src := str("go_test")
+	if src == "" {
+		fmt.Println("no executable witness is stored for this obligation (no-failing-input-found): the failed obligation above, with the")
+		fmt.Println("solver's answer, is the report. Candidate model (if any):")
+		m := str("model")
+		if len(m) > 1500 {
+			m = m[:1500] + " ..."
+		}
+		fmt.Println(m)
+		return 1
+	}
+	name := str("go_test_name")
+	if name == "" {
+		name = "TestGovcReplay"
+		if i := strings.Index(src, "func Test"); i >= 0 {
+			j := strings.Index(src[i:], "(")
+			name = src[i+5 : i+j]
+		}
+	}
+	e := &Engine{RepoDir: *repo}
+	out, failed := runReplay(e, &ReplaySpec{PkgDir: str("go_test_pkg"), TestName: name, Source: src, MustContain: str("must_contain")})
+	fmt.Println(out)
+	if failed {
+		fmt.Println("REPRODUCED: the witness fails against the code in", *repo)
+		return 1
+	}
+	fmt.Println("not reproduced: the witness passes against the code in", *repo)
+	return 0
 }
